@@ -212,7 +212,8 @@ func RandomProgram(seed uint64, o RandomOpts) *Program {
 				// an embedded message must not itself embed (keeps promoted names simple) and must be
 				// embedded at most once per parent
 				for _, ef := range p.Msg(f.Ref).Fields {
-					if ef.Embed {
+					// embedding a message that embeds is kept to by-value chains
+					if ef.Embed && (ef.Nullable || f.Nullable) {
 						ok = false
 					}
 				}
